@@ -115,16 +115,43 @@ class _Crash:
         self.index, self.text, self.in_iopt = index, text, in_iopt
 
 
+class ItemTimeout(Exception):
+    pass
+
+
+ITEM_TIMEOUT = int(os.environ.get("VERIF_ITEM_TIMEOUT", "1500"))     # seconds per work item (they normally take < 60 s)
+
+
 def _run_chunk(args):
     fn, chunk = args
     out = []
+    import signal
+
+    def on_alarm(signum, frame):
+        raise ItemTimeout(f"work item still running after {ITEM_TIMEOUT} s (the implementation does not return)")
     for i, t in enumerate(chunk):
         try:
-            out.append(fn(t))
+            try:
+                signal.signal(signal.SIGALRM, on_alarm)
+                signal.alarm(ITEM_TIMEOUT)
+            except ValueError:
+                pass      # not in the main thread of this process: no watchdog
+            try:
+                out.append(fn(t))
+            finally:
+                try:
+                    signal.alarm(0)
+                except ValueError:
+                    pass
         except Exception as e:
             import traceback
             tb = traceback.extract_tb(e.__traceback__)
             in_iopt = bool(tb) and os.path.abspath(tb[-1].filename).startswith(os.path.abspath(REPO) + os.sep)
+            if isinstance(e, ItemTimeout):
+                inside = [f for f in tb if os.path.abspath(f.filename).startswith(os.path.abspath(REPO) + os.sep)]
+                in_iopt = bool(inside)
+                if inside:
+                    tb = tb[:tb.index(inside[-1]) + 1]
             where = f"{os.path.basename(tb[-1].filename)}:{tb[-1].lineno} in {tb[-1].name}" if tb else "?"
             out.append(_Crash(i, f"{type(e).__name__}: {e} ({where})", in_iopt))
             break
@@ -311,6 +338,9 @@ def main(argv=None):
 
     t0 = time.time()
     ctx = Ctx(tier, seed)
+    global ITEM_TIMEOUT
+    if tier == "thorough" and "VERIF_ITEM_TIMEOUT" not in os.environ:
+        ITEM_TIMEOUT = 5400
     try:
         res = mod.run(ctx)
     except ItemCrash as c:
